@@ -111,11 +111,11 @@ CASES = {"ble_read": case_ble_read, "ble_write": case_ble_write}
 def plan(tier):
     work = []
     for ids in READ_SETS:
-        alph = PDU_STATUSES if len(ids) <= 2 else [0, 4, 6]
+        alph = PDU_STATUSES if len(ids) <= (2 if tier == "quick" else 3) else [0, 4, 6]
         vecs = list(itertools.product(alph, repeat=len(ids)))
         work.append(("ble_read", {"ids": ids, "replies": vecs[:1], "vectors": vecs}))
     for ids in WRITE_SETS:
-        alph = PDU_STATUSES if len(ids) <= 2 else [0, 3, 6]
+        alph = PDU_STATUSES if len(ids) <= (2 if tier == "quick" else 3) else [0, 3, 6]
         vecs = list(itertools.product(alph, repeat=len(ids)))
         work.append(("ble_write", {"ids": ids, "replies": vecs[:1], "vectors": vecs}))
     return work
